@@ -638,8 +638,24 @@ def r01_9(chk, P):
         def coupling_sub(e):
             """X[...coupling_mag/ang...] -> (text of X, 'coupling_mag'|'coupling_ang') or None"""
             nd = F.ex[F.strip_casts(e)]
-            if nd['k'] != 'sub':
+            base = idx = None
+            if nd['k'] == 'sub':
+                base, idx = nd['c'][0], nd['c'][1]
+            elif nd['k'] == 'un' and nd['op'] == '*':
+                # *(X+i), or *p with `int *p=X+i;` / `p=&X[i];`
+                t = F.strip_casts(nd['c'][0])
+                tn = F.ex[t]
+                if tn['k'] == 'ref' and tn['decl'].get('kind') == 'var' and tn['decl'].get('id') in defs:
+                    t = F.strip_casts(defs[tn['decl']['id']])
+                    tn = F.ex[t]
+                if tn['k'] == 'bin' and tn['op'] == '+':
+                    base, idx = tn['c'][0], tn['c'][1]
+                elif tn['k'] == 'un' and tn['op'] == '&' and F.ex[F.strip_casts(tn['c'][0])]['k'] == 'sub':
+                    sn = F.ex[F.strip_casts(tn['c'][0])]
+                    base, idx = sn['c'][0], sn['c'][1]
+            if base is None:
                 return None
+            nd = {'c': [base, idx]}
             todo = [nd['c'][1]]
             hops = 0
             while todo and hops < 6:
